@@ -494,6 +494,57 @@ def check_partial(rec, rng, cid, tmpdir, counter):
                 model.models_available.pop(key, None)
 
 
+def check_key_reuse(rec, rng, cid, tmpdir, counter):
+    """(f) a key that was deregistered is registered again by a module with
+    another model function (a new version of the model): the registered
+    model evaluates the NEW function"""
+    from nanite import model
+    counter[0] += 1
+    key = "hm_reuse_%d_%d_%d" % (cid[0], cid[1], counter[0])
+    offs = [float(rng.uniform(1, 9) * 1e-9) for _ in range(2)]
+    case = {"id": cid, "kind": "key-reuse", "offsets": offs}
+    prm = {"E": float(10 ** rng.uniform(2, 5)), "R": 5e-6, "nu": .4,
+           "contact_point": 1e-7, "baseline": 2e-10}
+    x = np.linspace(2e-6, -2e-6, 48)
+    want = ref.force("hertz_para", x, prm)
+    for version, off in enumerate(offs):
+        src = BASE_SRC.replace("KEY", key).replace(
+            "return aa*bb + baseline", "return aa*bb + baseline + %r" % off)
+        as_file = bool(rng.integers(2))
+        rec.event("keys registered again with another function")
+        rec.evaluated(dg=("key-reuse", version, as_file, cid))
+        try:
+            if as_file:
+                counter[0] += 1
+                f = pathlib.Path(tmpdir) / ("r%d_%s.py" % (counter[0], key))
+                f.write_text(src)
+                md = model.load_model_from_file(f, register=True)
+            else:
+                model.register_model(module_from_source(src, key))
+                md = model.models_available[key]
+            got = md.model(gen.nanite_params(key, prm), x)
+            force = want + off + 1e-10
+            res = md.residual(gen.nanite_params(key, prm), x, force, False)
+        except BaseException as e:  # noqa
+            rec.violation("key-reuse/raises/" + type(e).__name__,
+                          "version %d of a model under a re-used key raised "
+                          "%s" % (version, str(e)[:80]), case)
+            model.models_available.pop(key, None)
+            return
+        rec.check(np.allclose(got, want + off, rtol=1e-12, atol=0),
+                  "key-reuse/model-is-an-earlier-version",
+                  "version %d registered under a re-used key evaluates "
+                  "another function (offset seen %r, expected %r)"
+                  % (version, float(np.median(got - want)), off), case)
+        rec.check(np.allclose(res, 1e-10, rtol=1e-6, atol=0),
+                  "key-reuse/residual-is-an-earlier-version",
+                  "default residual of version %d uses another function"
+                  % version, case)
+        if version == 0:
+            model.deregister_model(md)
+    model.models_available.pop(key, None)
+
+
 def check_ancillaries(rec, rng, cid):
     """(d) ancillary values seed matching fit parameters unless NaN"""
     from nanite import model
@@ -547,6 +598,7 @@ def run_all(rec, rng, cid, tmpdir, counter, with_faults):
     check_sequence(rec, rng, cid, tmpdir, counter)
     check_file_copy(rec, rng, cid, tmpdir, counter)
     check_partial(rec, rng, cid, tmpdir, counter)
+    check_key_reuse(rec, rng, cid, tmpdir, counter)
     check_ancillaries(rec, rng, cid)
 
 
